@@ -839,7 +839,7 @@ def render_layout(rng, tree):
             if not need and r < 0.5:
                 sep = ""
             else:
-                sep = rng.choice([" ", " ", "  ", "\t", "\n", "\r\n", " ; comment (\n", "\n\n  ", ";;\n"])
+                sep = rng.choice([" ", " ", "  ", "\t", "\n", "\r\n", " ; comment (\n", "\n\n  ", ";;\n", "\r", " ;x\r ", ";\r", "\n ; a\r\n ; b\n"])
             out.append(sep)
         out.append(tk)
     lead = rng.choice(["", "", " ", "\n", "; c\n"])
